@@ -24,6 +24,7 @@ import http.client
 import json
 import threading
 import time
+import tokenize
 import urllib.error
 import urllib.parse
 import urllib.request
@@ -570,6 +571,9 @@ class S3ChunkStore(ChunkStore):
             requests.exceptions.RetryError: S3ServerGlitch,  # too many status retries
             # A generic request error (includes connection failures)
             requests.exceptions.RequestException: StoreUnavailable,
+            # The object is not NPY data at all (bad magic / version / header)
+            ValueError: BadChunk,
+            tokenize.TokenError: BadChunk,
         }
         super().__init__(error_map)
         auth = _auth_factory(url, token, credentials)
